@@ -76,6 +76,12 @@ FieldReq(f, o) == LET v == f.v IN
 
 \* map members: is a Go map "an object"? either.  Under OmitNil the oj / sen writers also leave out EMPTY (non-nil) slice and
 \* map members and ojg's own suite asserts that (TestWriteMapSlice), while struct members of that kind are written: allowed.
+\* Where may the ENCODERS differ on whether a member with an empty encoding is written (Agreement disregards it there)?
+\* Under OmitEmpty for every member the OmitEmpty sentence can be read either way ("maps with all empty members will not be
+\* skipped on writing but will be with alt.Decompose"); under OmitNil only for a non-nil pointer chain that ends in nil.  A nil
+\* map or slice MEMBER OF A STRUCT under OmitNil is written ({} / []) by every encoder: there Agreement is strict (the
+\* Reference layer still accepts both readings of "nil value").  Map members: see MemberReq.
+FieldLoose(f, o) == (o.oempty /\ Emptyish(f.v)) \/ (o.onil /\ NilChainE(f.v))
 MemberReq(v, o) == IF (o.onil \/ o.oempty) /\ (IsNilPtr(v) \/ IsNilCont(v)) THEN "may"
                    ELSE IF o.onil /\ v.g \in {"slice", "map"} /\ v.a = <<>> THEN "may"
                    ELSE IF o.oempty /\ Emptyish(v) THEN "may" ELSE "must"
@@ -103,15 +109,15 @@ Entries(fs, i, o, ctx, inh) ==
       inner == IF f.v.g = "struct" THEN f.v ELSE IF f.v.g = "ptr" /\ ~f.v.nil /\ f.v.a[1].g = "struct" THEN f.v.a[1] ELSE [g |-> "none"]
   IN
   IF ~f.exp THEN rest                                                          \* unexported: not encoded
-  ELSE IF o.tags /\ f.dash THEN <<[ks |-> {f.n, f.l1, f.la}, v |-> AnyP, req |-> "not", d |-> Descr(f, ctx, rel)]>> \o rest
+  ELSE IF o.tags /\ f.dash THEN <<[ks |-> {f.n, f.l1, f.la}, v |-> AnyP, req |-> "not", ag |-> FALSE, d |-> Descr(f, ctx, rel)]>> \o rest
   ELSE IF flat /\ inner.g = "struct"
        THEN Entries(inner.f, 1, o, IF f.v.g = "ptr" THEN "embedded-ptr" ELSE "embedded", inh \/ (\E j \in (i + 1)..Len(fs) : fs[j].oe)) \o rest
-  ELSE IF flat /\ IsNilPtr(f.v) THEN <<[ks |-> {}, v |-> AnyP, req |-> "open", d |-> Descr(f, ctx, rel)]>> \o rest   \* nothing stated
+  ELSE IF flat /\ IsNilPtr(f.v) THEN <<[ks |-> {}, v |-> AnyP, req |-> "open", ag |-> TRUE, d |-> Descr(f, ctx, rel)]>> \o rest   \* nothing stated
   ELSE LET vp == IF o.tags /\ f.str /\ f.v.g \in {"bool", "int", "uint8", "float"}
                  THEN (IF "sneg" \in DOMAIN f.v THEN [p |-> "leaf", t |-> "str", s |-> f.v.s, sneg |-> f.v.sneg] ELSE Leaf("str", f.v.s))   \* ,string: quoted scalar
                  ELSE IF o.tags /\ f.str /\ f.v.g = "string" THEN AnyP     \* encoding/json quotes the string once more; not stated for ojg
                  ELSE Pat(f.v, o)
-       IN <<[ks |-> KeySet(f, o), v |-> vp, req |-> FieldReq(f, o), d |-> Descr(f, ctx, rel)]>> \o rest
+       IN <<[ks |-> KeySet(f, o), v |-> vp, req |-> FieldReq(f, o), ag |-> FieldLoose(f, o), d |-> Descr(f, ctx, rel)]>> \o rest
 
 \* two fields that map to the same key: the documentation does not say what happens
 Decollide(es) == [i \in 1..Len(es) |->
@@ -120,8 +126,8 @@ Decollide(es) == [i \in 1..Len(es) |->
 
 StructPat(tv, o) ==
   LET ckE == IF o.ck = "" THEN <<>>
-             ELSE IF tv.name = "" THEN <<[ks |-> {o.ck}, v |-> AnyP, req |-> "may", d |-> [NoDescr EXCEPT !.ctx = "createkey"]]>>
-             ELSE <<[ks |-> {o.ck}, v |-> Leaf("str", IF o.full THEN tv.fname ELSE tv.name), req |-> "must",
+             ELSE IF tv.name = "" THEN <<[ks |-> {o.ck}, v |-> AnyP, req |-> "may", ag |-> FALSE, d |-> [NoDescr EXCEPT !.ctx = "createkey"]]>>
+             ELSE <<[ks |-> {o.ck}, v |-> Leaf("str", IF o.full THEN tv.fname ELSE tv.name), req |-> "must", ag |-> FALSE,
                      d |-> [NoDescr EXCEPT !.ctx = "createkey"]]>>
       es == Decollide(ckE \o Entries(tv.f, 1, o, IF tv.name = "" THEN "anon-struct" ELSE "named-struct", FALSE))
   IN [p |-> "obj", m |-> SelectSeq(es, LAMBDA e : e.req \notin {"open", "drop"}), open |-> \E i \in 1..Len(es) : es[i].req = "open"]
@@ -139,7 +145,7 @@ Pat(tv, o) ==
   ELSE IF tv.g = "map" THEN
        (IF tv.nil THEN [p |-> "nilobj"]
         ELSE [p |-> "obj", open |-> FALSE,
-              m |-> [i \in 1..Len(tv.k) |-> [ks |-> {tv.k[i]}, v |-> Pat(tv.a[i], o), req |-> MemberReq(tv.a[i], o),
+              m |-> [i \in 1..Len(tv.k) |-> [ks |-> {tv.k[i]}, v |-> Pat(tv.a[i], o), req |-> MemberReq(tv.a[i], o), ag |-> (o.onil \/ o.oempty),
                                               d |-> [NoDescr EXCEPT !.ctx = "map-member", !.fk = KindOf(tv.a[i]), !.val = ValClass(tv.a[i])]]]])
   ELSE IF tv.g = "struct" THEN StructPat(tv, o)
   ELSE AnyP                                                                       \* time, custom encodings: not prescribed here
@@ -208,6 +214,19 @@ Prune(tr, all) == IF tr.t = "arr" THEN [tr EXCEPT !.a = [i \in 1..Len(tr.a) |-> 
                        [tr EXCEPT !.m = SelectSeq(ms, LAMBDA x : ~EmptyEnc(x.v, all))]
                   ELSE tr
 Norm(tr, o) == IF o.oempty THEN Prune(tr, TRUE) ELSE IF o.onil THEN Prune(tr, FALSE) ELSE tr
+\* NormP: the same, guided by the pattern: a member is disregarded only where its entry says the encoders may differ (ag);
+\* below an AnyP (documentation silent, colliding keys) the unguided Norm applies
+EntryOf(pat, k) == LET S == {i \in 1..Len(pat.m) : k \in pat.m[i].ks} IN
+                   IF S = {} THEN [v |-> AnyP, ag |-> TRUE] ELSE pat.m[CHOOSE i \in S : \A j \in S : i <= j]
+RECURSIVE NormP(_, _, _)
+NormP(pat, tr, o) ==
+  IF ~(o.onil \/ o.oempty) THEN tr
+  ELSE IF pat.p = "obj" /\ tr.t = "obj" THEN
+       LET ms == [j \in 1..Len(tr.m) |-> [k |-> tr.m[j].k, v |-> NormP(EntryOf(pat, tr.m[j].k).v, tr.m[j].v, o)]] IN
+       [tr EXCEPT !.m = SelectSeq(ms, LAMBDA x : ~(EntryOf(pat, x.k).ag /\ EmptyEnc(x.v, o.oempty)))]
+  ELSE IF pat.p = "arr" /\ tr.t = "arr" /\ Len(pat.a) = Len(tr.a) THEN [tr EXCEPT !.a = [i \in 1..Len(tr.a) |-> NormP(pat.a[i], tr.a[i], o)]]
+  ELSE IF pat.p = "any" THEN Norm(tr, o)
+  ELSE tr
 
 \* equality up to nil-versus-empty containers (comparison with encoding/json)
 RECURSIVE NilEq(_, _)
